@@ -16,6 +16,8 @@ def run_scenario(scn, seed=0):
         # a module-level call with its own RandState is a stream of its own, over the class of the root object
         if op["op"] == "call" and op["call"].get("stream"):
             W["cls"][op["call"]["stream"]] = W["cls"][op["call"]["roots"][0]]
+        if op["op"] in ("mk", "snap_u", "restore_u"):
+            W["cls"]["u:" + op["name"]] = scn["world"]["population"][0]["cls"]      # user-held states: streams over the one class
     events = []
     for i, env in enumerate(scn["envs"]):
         e = dict(os.environ)
